@@ -1,6 +1,8 @@
 import SimilarVerif.Props.C10
 import SimilarVerif.Props.C09
 import SimilarVerif.Lemmas.HeadlineGlue
+import SimilarVerif.Lemmas.HeadlineGlueC09
+import SimilarVerif.Props.Headline.C09
 /-! # C10 — headline -/
 namespace SimilarVerif.Headline
 open SimilarVerif Spec
@@ -16,18 +18,22 @@ allows) for sequences old/new [`ops` with `NoReplaceOp ops` and `Walk (eqB E) o 
 yields a valid edit script for the same sequences [`Walk` between the same end points] with exactly the same
 number of deleted and of inserted items [`nDel`, `nIns`; `nEq` too], completed by the time finish returns [when
 `deliver` returns, the recording hook holds the whole result followed by `finish`; the adapters return: no panic].
-Through both adapters the result is in the normal form of C09 [Equal / non-Equal strictly alternate
-(`Alternating`: a deletion adjacent to an insertion has become one Replace), no op is empty, and C09's clause 4
-— an Insert directly followed by an Equal has `new[first inserted] ≠ old[first equal]` — for the cleaned-up list
-`buf` that `Compact` hands to `Replace`]; through the replace adapter alone, carried indices stay exact
-[`Exact o n ops → Exact o n out`]."
+Through both adapters the result is in the normal form of C09 [the FULL normal form, for what the recording hook
+holds, `out`: `CanonicalNormalForm E out`, the definition C09's headline theorem uses (Props/Headline/C09.lean), i.e.
+(a) Equal / non-Equal strictly alternate (`Alternating`), (b) no op is empty, (c) a deletion adjacent to an insertion
+has become one Replace (no two adjacent ops are both changes; every Replace has a deleted and an inserted part),
+(d) within any run of changed items all deleted items precede all inserted items, (e) an Insert directly followed by
+an Equal sits at its latest position: `new[first inserted] == old[first equal]`, `E.on eo cn`, is defined and `false`.
+(a) and (b) are also stated on their own, and clause (e) also for the cleaned-up list `buf` that `Compact` hands to
+`Replace`, as before]; through the replace adapter alone, carried indices stay exact [`Exact o n ops → Exact o n out`]."
 
 Hypotheses, visible in the statement: for (C) and (CR) the carried indices of the input obey C01's rule
 (`Carried`, what every algorithm delivers) and the ranges are in bounds (`InBounds`) — `Compact`'s clean-up
 compares items and shifts carried indices with checked subtraction; without them it can panic.  (R) needs neither.
-Not covered by this theorem: clause 4 of the normal form transported from `buf` through `Replace` to `out`
-(needs: the clean-up leaves no two adjacent Inserts, so that the Insert `Replace` emits starts where `buf`'s
-Insert started; the full `NormalForm` of captured diffs belongs to C09, which is being extended separately). -/
+Not covered by this theorem: nothing of the property text.  (Outside the text: the normal form is not claimed for
+(R) or (C) alone — `Replace` alone does not move insertions to their latest position, and `Compact` alone leaves a
+Delete next to an Insert as two ops; "carried indices stay exact" through `Compact` is C11: true for the repaired
+swap, false for the shipped one, known finding `KF-compact-swap`.) -/
 theorem C10_statement (E : Env) (repair : Bool) (ops : List Op) (o n o' n' : Nat) (w : World)
     (hnr : NoReplaceOp ops) (hw : Walk (eqB E) o n ops o' n') :
     -- (R)
@@ -50,7 +56,9 @@ theorem C10_statement (E : Env) (repair : Bool) (ops : List Op) (o n o' n' : Nat
         Walk (eqB E) o n out o' n' ∧ nDel out = nDel ops ∧ nIns out = nIns ops ∧ nEq out = nEq ops ∧
         Alternating out ∧ (∀ x ∈ out, x.isEmpty = false) ∧
         (∀ pre co cn l eo en el post, buf = pre ++ .insert co cn l :: .equal eo en el :: post →
-          eqB E eo cn = false))) := by
+          eqB E eo cn = false) ∧
+        -- the full normal form of C09, clauses (a) – (e), for what the recording hook holds
+        CanonicalNormalForm E out)) := by
   refine ⟨?_, ?_⟩
   · obtain ⟨out, rs, h, r⟩ := C10.replace_preserves (eqB E) ops o n o' n' w hnr hw
     exact ⟨out, rs, h, r⟩
@@ -61,9 +69,16 @@ theorem C10_statement (E : Env) (repair : Bool) (ops : List Op) (o n o' n' : Nat
     · rw [compact_deliver E repair recHook {} w ops hnr, hcl]
       simp only [deliver_recHook, List.nil_append]
     · obtain ⟨out, rs, hro, b1, b2, b3, b4, b5, -⟩ := C10.replace_preserves (eqB E) ops' o n o' n' w' a5 a1
-      refine ⟨ops', rs, out, w', ?_, b1, by omega, by omega, by omega, b5,
-        C09.walk_no_empty _ out _ _ _ _ b1,
-        CompactT.cleanup_insert_latest E repair ops o n o' n' w ops' w' hnr hw hcl⟩
+      have hi := CaptureNF.cleanup_insOK E repair ops o n o' n' w ops' w' hnr hw hcl
+      obtain ⟨out2, ht, h4⟩ := CaptureNF.replace_latest E ops' w' a5 hi _ hro
+      have he2 : out2 = out := by
+        simp only at ht
+        exact (C09G.map_op_inj _ _ (List.append_cancel_right ht)).symm
+      subst he2
+      refine ⟨ops', rs, out2, w', ?_, b1, by omega, by omega, by omega, b5,
+        C09.walk_no_empty _ out2 _ _ _ _ b1,
+        CompactT.cleanup_insert_latest E repair ops o n o' n' w ops' w' hnr hw hcl,
+        canonicalNormalForm_of b1 b5 hb h4⟩
       rw [compact_deliver E repair (replaceHook recHook) ({}, {}) w ops hnr, hcl]
       unfold replaceOut at hro
       simp only [hro]
@@ -87,5 +102,30 @@ example : (deliver (compactHook (Env.ofSeqs #[1,0] #[1,2,0,1]) false (replaceHoo
     (([.equal 0 0 1, .insert 1 1 1, .equal 1 2 1, .insert 2 3 1] : List Op).map Call.op ++ [.finish])
     ([], ({}, {})) {}).map (·.1.2.2.trace) =
     .ok [.op (.equal 0 0 1), .op (.insert 1 1 1), .op (.equal 1 2 1), .op (.insert 2 3 1), .finish] := by rfl
+
+/-- non-vacuity of the full normal form in (CR): `old = [1,2,3]`, `new = [1,1,2,4]`; a valid script with the insertion
+of the second `1` at its EARLIEST position and an Insert before a Delete satisfies the hypotheses of (CR) … -/
+example : NoReplaceOp [.insert 0 0 1, .equal 0 1 2, .insert 2 3 1, .delete 2 1 4] ∧
+    Carried 0 0 [.insert 0 0 1, .equal 0 1 2, .insert 2 3 1, .delete 2 1 4] := by
+  simp [NoReplaceOp, Carried, CarriedGo, InRun]
+example : Walk (eqB (Env.ofSeqs #[1,2,3] #[1,1,2,4])) 0 0
+    [.insert 0 0 1, .equal 0 1 2, .insert 2 3 1, .delete 2 1 4] 3 4 := by
+  simp only [Walk, true_and, and_true]
+  refine ⟨by decide, by decide, ?_, by decide, by decide⟩
+  intro t ht
+  have : t = 0 ∨ t = 1 := by omega
+  rcases this with rfl | rfl <;> decide
+example : InBounds (Env.ofSeqs #[1,2,3] #[1,1,2,4]) 0 3 0 4 :=
+  (RangesInBounds.of_eqPattern (by decide) (by decide)
+    (IdentP.eqPattern_ofSeqs #[1,2,3] #[1,1,2,4] 0 0 0 3 0 4 (by decide) (by decide) (by decide) (by decide))).cross
+
+/-- … `Compact` over `Replace` moves the insertion to its latest position (clause (e) is exercised: the Insert is now
+directly followed by the Equal of `2`, and `new[1] == old[1]`, i.e. `1 == 2`, is defined and false) and merges the
+Insert / Delete pair into one Replace with the deletion first (clauses (c), (d)) -/
+example : (deliver (compactHook (Env.ofSeqs #[1,2,3] #[1,1,2,4]) false (replaceHook recHook))
+    (([.insert 0 0 1, .equal 0 1 2, .insert 2 3 1, .delete 2 1 4] : List Op).map Call.op ++ [.finish])
+    ([], ({}, {})) {}).map (·.1.2.2.trace) =
+    .ok [.op (.equal 0 0 1), .op (.insert 1 1 1), .op (.equal 1 2 1), .op (.replace 2 1 3 1), .finish] := by rfl
+example : (Env.ofSeqs #[1,2,3] #[1,1,2,4]).on 1 1 = some false := by decide
 
 end SimilarVerif.Headline
